@@ -72,16 +72,23 @@ pub struct ScriptedRead {
     pos: usize,
     script: Vec<Step>,
     i: usize,
+    rem: Option<usize>,
     pub log: Rc<RefCell<Vec<Value>>>,
 }
 impl ScriptedRead {
     pub fn new(data: Rc<Vec<u8>>, script: Vec<Step>, log: Rc<RefCell<Vec<Value>>>) -> Self {
-        ScriptedRead { data, pos: 0, script, i: 0, log }
+        ScriptedRead { data, pos: 0, script, i: 0, rem: None, log }
     }
+}
+impl ScriptedRead {
+    pub fn delivered_all(&self) -> bool { self.pos >= self.data.len() }
 }
 impl Read for ScriptedRead {
     fn read(&mut self, buf: &mut [u8]) -> std::io::Result<usize> {
-        let step = if self.i < self.script.len() { let s = self.script[self.i].clone(); self.i += 1; s } else { Step::N(usize::MAX) };
+        // a step N(n) means "n bytes are available now": if the caller's buffer takes fewer, the rest of the
+        // step is served by the following reads, so that a later Zero step falls exactly where the script says
+        let step = if let Some(r) = self.rem.take() { Step::N(r) }
+                   else if self.i < self.script.len() { let s = self.script[self.i].clone(); self.i += 1; s } else { Step::N(usize::MAX) };
         let left = self.data.len() - self.pos;
         match step {
             Step::Err(k, m) => {
@@ -94,6 +101,7 @@ impl Read for ScriptedRead {
             }
             Step::N(n) => {
                 let k = n.min(buf.len()).min(left);
+                if k < n && k < left && n != usize::MAX { self.rem = Some(n - k); }
                 buf[..k].copy_from_slice(&self.data[self.pos..self.pos + k]);
                 self.pos += k;
                 self.log.borrow_mut().push(json!({"ev":"read","n":k as i64,"want":nsat(buf.len()),"io":"","left":nsat(left - k)}));
@@ -233,7 +241,8 @@ pub fn run_reader<T: EbmlSpecification<T> + EbmlTag<T> + Clone>(
                 if ended { after_end += 1; if after_end > extra { break; } }
                 continue;
             }
-            if res == "none" || is_err { ended = true; }
+            // a None while the source still holds undelivered bytes is a pause (temporary end-of-file), not the end
+            if (res == "none" && it.get_ref().delivered_all()) || is_err { ended = true; }
             if ended { after_end += 1; if after_end > extra { break; } }
         }
     }
